@@ -70,6 +70,7 @@ POSITIONS = [
     "f() { echo @; }; f", "function g { echo @; }; g", "time echo @", "! echo @", "( echo @ )", "{ echo @; }", "echo a | echo @", "true && echo @", "false || echo @", "echo a; echo @", "echo @ &",
     "if echo @; then :; fi", "if true; then echo @; fi", "if false; then :; else echo @; fi", "if false; then :; elif echo @; then :; fi", "while echo @; do break; done", "until echo @; do break; done", "while true; do echo @; break; done",
     "echo \"${x:-@}\"", "echo \"pre ${x:-a @ b} post\"", "echo \"$(echo @)\"", "echo $(echo @)", "echo `echo @`", "echo $(echo $(echo @))", "echo <(echo @)", "cat <(echo @)", "echo @ > /dev/null 2>&1", "x=${y:-@} true",
+    "echo msg=\"${x:-@}\"", "X=\"${x:-@}\" true", "echo pre\"${x:-@}\"post", "echo --a=\"${x:-a @ b}\"", "X=\"${HOME:+@}\"", "for i in a\"${x-@}\"; do :; done", "echo 'lit'\"${x:=@}\"",
     "printf '%s' @", "eval echo @", "echo {a,@}", "echo ~/@", "echo $'x'@", "echo ${x:-'lit'@}", "echo ${x:-\"dq\"@}", "echo ${x:-\\@}",
 ]
 SUBSTS = ["$(rm x)", "`rm x`", "<(rm x)", ">(rm x)", "$( rm x )", "$(rm x;)", "$(rm x\n)", "$(rm x #c\n)", "$((1)); rm x", "${z:-$(rm x)}", "$(echo a; rm x)", "$(true && rm x)", "$(true | rm x)", "$(if true; then rm x; fi)"]
